@@ -5,6 +5,7 @@ CONSTANTS
   RecyclesWrappers = FALSE
   SharedDefaults = TRUE
   MaxOps = 4
+  SharedCloser = FALSE
   OnceIsNilCheck = FALSE
 INVARIANTS InvIsolated
 CHECK_DEADLOCK FALSE
